@@ -32,8 +32,9 @@ FUNCTIONS = ['AbstractLinearOperator.__matmul__/__add__/__sub__/__mul__/__rmul__
 BOUNDS = {'quick': 'operands: 14 kinds on (3,) vectors; all binary trees over operand pairs x {@,+,-}, seeded 350 three-operand trees in both '
                    'parenthesisations, unary/scalar wrappers with 8 concrete scalar kinds and a symbolic scalar; rejection: 16 operators of 5 structures, all ordered pairs',
           'thorough': 'all three-operand trees, seeded four-operand trees'}
+BOUNDS['quick'] += '; complex-valued operands (exact in Q(i)): + - @ unary minus, k* and *k with a symbolic complex scalar over 6 square and 3 non-square leaves (130 expressions)'
 STUBS = ['lineax.linear_solve -> contract stub (lazy inverse only of the concrete SPD operand)']
-ASSUMPTIONS = ['real arithmetic', 'division: k != 0', 'NumPy arrays as LEFT operand of * are outside the claim (NumPy dispatch takes over)']
+ASSUMPTIONS = ['exact real arithmetic (complex-valued family: exact in Q(i))', 'division: k != 0', 'NumPy arrays as LEFT operand of * are outside the claim (NumPy dispatch takes over)']
 RULE = 'case = expression tree; non-trivial = the tree has >= 1 binary node or scalar factor and symbolic atoms; distinct keys'
 BUDGET = {'quick': 400, 'thorough': 2400}
 
@@ -50,7 +51,8 @@ ATOMIC = ('leaf',)
 
 def cases(tier, seed):
     rnd = random.Random(f'c02-{seed}')
-    out = []
+    from .. import cplx
+    out = [('cplx', c) for c in cplx.arith_cases()]
     for a, b in itertools.product(OPERANDS, repeat=2):
         for o in '@+-':
             out.append(('arith', (o, a, b)))
@@ -163,6 +165,9 @@ def run_case(key, twin=False):
         return _reject()
     if key[0] == 'scalars':
         return _scalars()
+    if key[0] == 'cplx':
+        from .. import cplx
+        return cplx.check_arith(_tuplify(key[1]), twin)
     _, e = key
     fam = 'vec'
     bld = Builder(fam)
@@ -290,6 +295,9 @@ def replay(key, model, info):
     if key[0] in ('reject', 'scalars'):
         r = run_case(key)
         return r['status'] == 'violation', r.get('what', 'ok')
+    if key[0] == 'cplx':
+        from .. import cplx
+        return cplx.replay_arith(key[1], model, twin)
     _, e = key
     fam = 'vec'
     bld = Builder(fam)
